@@ -51,6 +51,7 @@ QUICK_TIMEOUT = 300.0
 
 THOROUGH_CASES = 120
 THOROUGH_TIMEOUT = {1: 600.0, 2: 900.0, 3: 1200.0, 4: 1500.0}
+DIRECT_TIMEOUT = {1: 300.0, 2: 300.0, 3: 600.0, 4: 900.0}   # by width
 THOROUGH_BUDGET_S = 30 * 60.0
 EST = {1: 5, 2: 12, 3: 40, 4: 120}
 
@@ -138,7 +139,11 @@ def thorough_templates(seed: int) -> list[tuple[Any, ...]]:
             d = rad[0] ** n
             label = str(int(rng.integers(1, d + 1)))
             o['orthogonal'] = bool(rng.random() < 0.7)
-        else:
+        if kind in ('state', 'system') and lvl >= 2 and rng.random() < 0.85:
+            # at level >= 2 the state workflows stall below ~1e-7 (see the
+            # report): keep most of these cases at a reachable epsilon
+            o['eps'] = float(rng.choice([1e-6, 1e-4]))
+        if kind == 'list':
             n = min(n, 2)
             rad = [rad[0]] * 2
             k = int(rng.integers(3, 6))
@@ -193,7 +198,10 @@ def main(tier: str, seed: int, replay: str | None = None) -> int:
         if run.deadline is None:
             run.deadline = time.monotonic() + THOROUGH_BUDGET_S
         cases = [make_case(seed, 1000 + i, t) for i, t in enumerate(thorough_templates(seed))]
-        timeouts = [THOROUGH_TIMEOUT[c['config']['level']] for c in cases]
+        timeouts = [
+            min(THOROUGH_TIMEOUT[c['config']['level']], DIRECT_TIMEOUT[min(4, c['model']['n'])])
+            for c in cases
+        ]
     cc.drive(run, cases, timeouts, cc.judge_c03, on_ok(run))
     for c, m in (
         ('target_distance_checked', 8 if tier == 'quick' else 40),
